@@ -46,6 +46,7 @@ package function
 //@     (forall a in 0..len(vs) :: forall b in a+1..len(vs) :: ref(vs[a].SampleIDs) != ref(vs[b].SampleIDs) || ref(vs[a].SampleIDs) == 0)
 //@ pred validSample(r) = !(r.Point.T == function.InvalidSample.Point.T && feq(r.Point.V, function.InvalidSample.Point.V) && r.Point.H == function.InvalidSample.Point.H)
 //@ func (*functionOperator).Next
+//@   refines model.VectorOperator.Next
 //@   requires ctx != nil && fopInv(o)
 //@   requires series-list-loaded-once: o.once != 0 ==> fopSeries(o)
 //@   requires vector-of-a-scalar-has-one-series: o.funcExpr.Func.Name == "vector" ==> o.nextOps[o.vectorIndex].nSeries == 1
@@ -72,13 +73,16 @@ package function
 //@   loop 0 invariant op0: fopInv(o) && fopSeries(o) && len(vectors) > 0 && len(vectors) <= len(o.scalarPoints) && sameslice(vectors, callres("model.VectorOperator.Next", 1, 0)) &&
 //@       batchOK(vectors, 0, len(vectors), o.nextOps[o.vectorIndex].nSeries)
 //@   loop 0 invariant step-vectors-own-their-ids0: sepIDs(vectors)
+//@   loop 0 invariant[C18] step-vectors-own-their-buffers0: sepBuffers(vectors, len(vectors)) && (forall k in 0..len(vectors) :: fresh(vectors[k].SampleIDs) && fresh(vectors[k].Samples) && allocated(vectors[k].SampleIDs) && allocated(vectors[k].Samples))
 //@   loop 0 invariant scalar-index: scalarIndex == ite(rangeindex + 1 > o.vectorIndex, rangeindex, rangeindex + 1)
 //@   loop 1 invariant op1: fopInv(o) && fopSeries(o) && len(vectors) > 0 && len(vectors) <= len(o.scalarPoints) && sameslice(vectors, callres("model.VectorOperator.Next", 1, 0)) &&
 //@       batchOK(vectors, 0, len(vectors), o.nextOps[o.vectorIndex].nSeries) && 0 <= scalarIndex && scalarIndex < len(o.nextOps) - 1 &&
 //@       (len(scalarVectors) == 0 || len(scalarVectors) == len(vectors))
 //@   loop 1 invariant step-vectors-own-their-ids1: sepIDs(vectors)
+//@   loop 1 invariant[C18] step-vectors-own-their-buffers1: sepBuffers(vectors, len(vectors)) && (forall k in 0..len(vectors) :: fresh(vectors[k].SampleIDs) && fresh(vectors[k].Samples) && allocated(vectors[k].SampleIDs) && allocated(vectors[k].Samples))
 //@   loop 2 invariant op2: fopInv(o) && fopSeries(o) && len(vectors) > 0 && len(vectors) <= len(o.scalarPoints) && sameslice(vectors, callres("model.VectorOperator.Next", 1, 0))
 //@   loop 2 invariant step-vectors-own-their-ids: sepIDs(vectors)
+//@   loop 2 invariant[C18] step-vectors-own-their-buffers2: sepBuffers(vectors, len(vectors)) && (forall k in 0..len(vectors) :: fresh(vectors[k].SampleIDs) && fresh(vectors[k].Samples) && allocated(vectors[k].SampleIDs) && allocated(vectors[k].Samples))
 //@   loop 2 invariant rest-as-delivered: batchOK(vectors, rangeindex + 1, len(vectors), o.nextOps[o.vectorIndex].nSeries)
 //@   loop 2 invariant[C18] done-index-own-series: batchOK(vectors, 0, rangeindex + 1, len(o.series))
 //@   loop 2 invariant[C06] scalar-one-sample-so-far: o.funcExpr.Func.Name == "scalar" ==> forall k in 0..rangeindex+1 :: len(vectors[k].Samples) == 1
@@ -86,6 +90,7 @@ package function
 //@       0 <= batchIndex && batchIndex < len(vectors) && o.funcExpr.Func.Name != "scalar" &&
 //@       sameslice(vector.Samples, vectors[batchIndex].Samples) && sameslice(vector.SampleIDs, vectors[batchIndex].SampleIDs) && vector.T == vectors[batchIndex].T
 //@   loop 3 invariant step-vectors-own-their-ids3: sepIDs(vectors)
+//@   loop 3 invariant[C18] step-vectors-own-their-buffers3: sepBuffers(vectors, len(vectors)) && (forall k in 0..len(vectors) :: fresh(vectors[k].SampleIDs) && fresh(vectors[k].Samples) && allocated(vectors[k].SampleIDs) && allocated(vectors[k].Samples))
 //@   loop 3 invariant rest-as-delivered3: batchOK(vectors, batchIndex + 1, len(vectors), o.nextOps[o.vectorIndex].nSeries)
 //@   loop 3 invariant done-index-own-series3: batchOK(vectors, 0, batchIndex, len(o.series))
 //@   loop 3 invariant this-vector-as-delivered: vecOK(vector, o.nextOps[o.vectorIndex].nSeries)
@@ -123,6 +128,7 @@ package function
 //@ extern field:execution/function.noArgFunctionOperator.call(f) r
 //@   pure
 //@ func (*noArgFunctionOperator).Next
+//@   refines model.VectorOperator.Next
 //@   requires ctx != nil && o != nil && o.vectorPool != nil && !isnil(o.call) && o.step >= 1 && o.stepsBatch >= 1
 //@   ensures[C18] never-fails: result1 == nil
 //@   ensures[C07,C18] ended-iff-past-maxt: isnil(result0) <==> old(o.currentStep) > o.maxt
@@ -137,3 +143,4 @@ package function
 //@       o.currentStep == old(o.currentStep) + i*o.step && o.step == old(o.step) && o.maxt == old(o.maxt) && o.stepsBatch == old(o.stepsBatch) && o.step >= 1 && (i == 0 ==> o.currentStep <= o.maxt)
 //@   loop 0 invariant steps: forall k in 0..i :: ret[k].T == old(o.currentStep) + k*o.step && ret[k].T <= o.maxt
 //@   loop 0 invariant samples: forall k in 0..i :: len(ret[k].Samples) == 1 && len(ret[k].SampleIDs) == 1 && ret[k].SampleIDs[0] == 0 && allocated(ret[k].Samples) && allocated(ret[k].SampleIDs)
+//@   loop 0 invariant[C18] step-vectors-own-their-buffers: ownBuffers(ret, i) && sepBuffers(ret, i)
